@@ -324,7 +324,7 @@ def _key(ev, clause):
     # switching function evaluated across the 0 / 2pi seam of an arc angle): keyed on its own
     if clause == "ShortestOfSix":
         return "%s:ShortestOfSix:%s" % (ev["sp"], "full-turn-arc" if ev.get("fta") else ev["br"])
-    if clause == "PrefixOptimal" and any(ev.get("preFta", [])):
+    if clause == "PrefixOptimal" and (ev.get("fta") or any(ev.get("preFta", []))):
         return "%s:PrefixOptimal:full-turn-arc" % ev["sp"]
     return "%s:%s" % (ev["sp"], clause)
 
